@@ -1,6 +1,9 @@
 package main
 
 import (
+	"os"
+	"encoding/json"
+	"bufio"
 	"fmt"
 	"math/rand"
 
@@ -251,6 +254,55 @@ func runC20(args []string) error {
 			t1case(1+r.Intn(24), 1+r.Intn(24), r.Intn(4), style, 5+r.Intn(8), []string{"noise", "noise", "sparse"}[r.Intn(3)])
 		}
 	}
-	fmt.Printf("c20: scenarios=%d mq=%d dwt=%d t1=%d events=%d\n", scn, nmq, ndwt, nt1, t.n)
+	// ---- reverse direction (informational): blocks coded by the Annex D reference encoder of spec/T1.tla, decoded by the library
+	nrev := 0
+	if f.scn != "" {
+		fh, err := os.Open(f.scn)
+		if err != nil {
+			return err
+		}
+		defer fh.Close()
+		sc := bufio.NewScanner(fh)
+		sc.Buffer(make([]byte, 1<<20), 1<<26)
+		for sc.Scan() {
+			var b struct {
+				W, H, Orient, Style, Planes int
+				Src, Code, Rates            []int
+			}
+			if err := json.Unmarshal(sc.Bytes(), &b); err != nil {
+				return fmt.Errorf("t1 scenario: %v", err)
+			}
+			scn++
+			t.Reset(scn)
+			var out []int32
+			es := ""
+			if b.Planes > 0 {
+				code := make([]byte, len(b.Code))
+				for i, v := range b.Code {
+					code[i] = byte(v)
+				}
+				pan, site, class := protect(func() {
+					dec := t1.NewT1Decoder(b.W, b.H, b.Style)
+					dec.SetOrientation(b.Orient)
+					if err := dec.DecodeLayeredWithMode(code, b.Rates, b.Planes-1, 0, b.Style&4 != 0, b.Style&2 != 0); err != nil {
+						es = "decode: " + err.Error()
+						return
+					}
+					out = i32s(dec.GetData())
+				})
+				if pan {
+					es = "panic: " + site + ": " + class
+				}
+			} else {
+				out = make([]int32, b.W*b.H)
+			}
+			if out == nil {
+				out = []int32{}
+			}
+			t.Event("t1rev", "w", b.W, "h", b.H, "orient", b.Orient, "style", b.Style, "planes", b.Planes, "src", b.Src, "out", out, "err", es)
+			nrev++
+		}
+	}
+	fmt.Printf("c20: scenarios=%d mq=%d dwt=%d t1=%d t1rev=%d events=%d\n", scn, nmq, ndwt, nt1, nrev, t.n)
 	return nil
 }
